@@ -218,9 +218,12 @@ def optPvOfJ (j : J) (k : String) : Except String TableArgs.PV :=
 
 /-- `inner_join(other, columns_self, columns_other, use_index, col_prefix)` with the key columns resolved by the
 TRANSLATED statements of the method (`Gen.C20Args.joinKeys`) -/
-def innerJoinArgs (t u : Table) (cs co : TableArgs.PV) (useIndex : Bool) (pre : String) : Except String Table := do
-  let (ks, ko, mask) ← Gen.C20Args.joinKeys t.header u.header t.index u.index cs co useIndex
-  let r ← t.innerJoin u ks.iter ko.iter pre
+def innerJoinArgs (t u : Table) (cs co : TableArgs.PV) (useIndex : Bool) (pre : String) (hand : Bool := false) :
+    Except String Table := do
+  let (ks, ko, mask) ←
+    if hand then TableArgs.joinKeysH t.header u.header t.index u.index cs co useIndex
+    else (Gen.C20Args.joinKeys t.header u.header t.index u.index cs co useIndex).map fun r => (r.1.iter, r.2.1.iter, r.2.2)
+  let r ← t.innerJoin u ks ko pre
   -- `output_mask` of the translated statements = the columns the table model keeps
   if r.header ≠ t.header ++ mask.map (pre ++ ·) then throw "output_mask differs from the model's kept columns"
   pure r
@@ -300,19 +303,30 @@ def handle (cmd : String) (j : J) : Except String J :=
       pure (resJ (t.transposed (← (← j.get "new").toStr) sel))
     | "sorted_args" => do
       -- the key columns / reversed columns as the TRANSLATED statements of `Table.sorted` resolve them
-      match Gen.C20Args.sortedColumns t.header [] (← optPvOfJ j "columns") (← optPvOfJ j "reverse") with
+      let hand := match j.get? "hand" with | some (.bool true) => true | _ => false
+      let c ← optPvOfJ j "columns"
+      let r ← optPvOfJ j "reverse"
+      -- (`"hand": true`: the HAND model `sortArgs` instead of the translated statements — the failing-input search)
+      let res := if hand then .ok (TableArgs.PV.list (TableArgs.sortArgs t.header c r).1, (TableArgs.sortArgs t.header c r).2)
+                 else Gen.C20Args.sortedColumns t.header [] c r
+      match res with
       | .error e => pure (.obj [("err", .str e)])
       | .ok (cols, rev) => pure (resJ (t.sorted (some cols.iter) rev.iter))
     | "inner_join_args" => do
       let u ← tableOfJ (← j.get "u")
       let ui ← match j.get? "use_index" with | some b => b.toBool | none => pure Gen.C20Args.joinKeysDefaultUseIndex
       let pre ← match j.get? "col_prefix" with | some (.str p) => pure p | _ => pure "right_"
-      pure (resJ (innerJoinArgs t u (← optPvOfJ j "cs") (← optPvOfJ j "co") ui pre))
+      let hand := match j.get? "hand" with | some (.bool true) => true | _ => false
+      pure (resJ (innerJoinArgs t u (← optPvOfJ j "cs") (← optPvOfJ j "co") ui pre hand))
     | "joined_args" => do
+      let hand := match j.get? "hand" with | some (.bool true) => true | _ => false
       let u ← tableOfJ (← j.get "u")
       let ij ← match j.get? "inner" with | some b => b.toBool | none => pure Gen.C20Args.joinedCallDefaultInnerJoin
       let pre ← match j.get? "col_prefix" with | some (.str p) => pure p | _ => pure Gen.C20Args.joinedCallDefaultColPrefix
-      match Gen.C20Args.joinedCall (← optPvOfJ j "cs") (← optPvOfJ j "co") ij pre with
+      let jcs ← optPvOfJ j "cs"
+      let jco ← optPvOfJ j "co"
+      let call := if hand then TableArgs.joinedCallH jcs jco ij pre else Gen.C20Args.joinedCall jcs jco ij pre
+      match call with
       | .error e => pure (.obj [("err", .str e)])
       | .ok call =>
         if call.name == "cross_join" then
@@ -320,7 +334,7 @@ def handle (cmd : String) (j : J) : Except String J :=
           pure (resJ (pure (t.crossJoin u p)))
         else if call.name == "inner_join" then
           match argOf call "columns_self", argOf call "columns_other", argOf call "use_index", argOf call "col_prefix" with
-          | some (.pv cs), some (.pv co), some (.bool ui), some (.str p) => pure (resJ (innerJoinArgs t u cs co ui p))
+          | some (.pv cs), some (.pv co), some (.bool ui), some (.str p) => pure (resJ (innerJoinArgs t u cs co ui p hand))
           | _, _, _, _ => throw "joined: unexpected arguments of the forwarded inner_join"
         else throw s!"joined forwards to {call.name}"
     | "sorted" => do
